@@ -71,6 +71,20 @@ MUTANTS = [
     ('C17', 'sys-path-reference-not-copy', 'plasTeX/Context.py',
      """        orig_sys_path = list(sys.path)""",
      """        orig_sys_path = sys.path"""),
+    ('C13', 'footnotes-numbering-assumes-mark', 'plasTeX/Base/LaTeX/Sectioning.py',
+     """            if f.mark is not None:
+                f.mark.attributes['num'] = i+1""",
+     """            if True:
+                f.mark.attributes['num'] = i+1"""),
+    ('C13', 'text-quote-rendered-twice', 'plasTeX/Renderers/Text/__init__.py',
+     """        self['\\\\'] = lambda *args: u'\\001'
+        output = []""",
+     """        self['\\\\'] = lambda *args: u'\\001'
+        res = [x.strip() for x in str(node).split(u'\\001')]
+        output = []"""),
+    ('C20', 'own-paux-by-basename', 'plasTeX/Compile.py',
+     """            if os.path.abspath(fname) == ownpaux:""",
+     """            if os.path.basename(fname) == pauxname:"""),
     # ---------------- C06
     ('C06', 'insertAfter-off-by-one', 'plasTeX/DOM/__init__.py',
      """            if item is refChild:
@@ -195,7 +209,7 @@ MUTANTS = [
      """            with open(filename, 'ab') as fh:
                 pickle.dump(d, fh)"""),
     ('C20', 'own-paux-restored', 'plasTeX/Compile.py',
-     """            if os.path.basename(fname) == pauxname:
+     """            if os.path.abspath(fname) == ownpaux:
                 continue""",
      """            if fname == pauxname:
                 continue"""),
